@@ -467,6 +467,10 @@ TRUSTED = ['hand-written model coq/ikesa/Hdl.v of ALL exchange handlers of ikesa
            'IKE_SA_INIT messages and cookies are tables recorded from the real run; random draws, fresh DH key pairs and '
            'kernel verdicts are replayed in call order from the recorded tape (a draw in a different order shows as a '
            'mismatch); Message.parse results are inputs',
+           'SPI sizes: the model raises (as the ctypes field assignment of xfrm.py does) when the PEER-chosen outbound SPI '
+           'of a CHILD_SA is not 4 bytes long; it does not guard the locally drawn inbound SPI (os.urandom(4) returns 4 '
+           'bytes; the tape of the model is unrestricted), and the invariant Spi4 (every tracked CHILD_SA has a 4-byte '
+           'outbound SPI) is proved preserved by every handler',
            'abstractions of the handler model: value semantics (the shared mutable Proposal objects of the configuration '
            'whose .spi every request rewrites are values: the SPIs kept inside a stored request / ChildSa proposal are not '
            'compared, what is SENT is); log output is not modelled; exceptions are classes (any non-IkeSaError exception '
